@@ -169,7 +169,8 @@ class Printer(PrinterBase):
 
     def make_argument(self, arg):
         typ = self.get_type(arg)
-        return f"{typ} {arg}"
+        # the function body refers to an argument via its reference name
+        return f"{typ} {arg.ref}"
 
     def make_apply(self, expr, name, tab=""):
         sargs = ", ".join(map(self.make_argument, expr.operands[1:-1]))
